@@ -250,6 +250,12 @@ def gen(rng, tier):
                 else:
                     args = [x, rng.choice([1, 2, 3])] if rng.random() < 0.7 else [rng.choice([1, 2]), x]
                 uev = {"ev": "ufunc_out", "var": x, "ufunc": uf, "args": args}
+                if rng.random() < 0.5:
+                    # the ufunc's INPUT is another collection (a snapshot copy of x taken now), x is only the
+                    # destination: np.add(a, 1, out=x[, where=m])
+                    k += 1
+                    hist.append({"ev": "copy", "var": x, "out": f"c{k}", "how": "copy"})
+                    uev["args"] = [f"c{k}" if a_ == x else a_ for a_ in args]
                 if rng.random() < 0.4:
                     # masked ufunc: where the mask is False the OLD contents of x are an input of the result
                     size = int(np.prod(X.shape))
@@ -413,7 +419,7 @@ def execute(case, stats, log):
                         exp[key_np] = val_np
                 elif kind == "ufunc_out":
                     f = getattr(np, ev["ufunc"])
-                    ins = [pre if a == t else a for a in ev["args"]]
+                    ins = [pre if a == t else (comp(a) if isinstance(a, str) else a) for a in ev["args"]]
                     exp = np.array(pre, copy=True)
                     if ev.get("where") is not None:
                         f(*ins, out=exp, where=np.array(ev["where"], dtype=bool))
